@@ -6,8 +6,8 @@ using namespace vf;
 
 struct Tissue { const char* name; };
 static const char* TISSUES[] = {"one growing cell (remeshing)", "two adhering epithelial cells", "epithelial cell overlapping an ECM cell", "nucleus inside an epithelial cell", "lumen cell next to an epithelial cell, both growing"};
-static const int NTR = 8;
-static const double TR[NTR][3] = {{0.25, 0, 0}, {1.125, -1.125, 0}, {8, -8, 8}, {1024, 1024, 1024}, {-5, -2.5, -1.5}, {-1024, 2048, 0.5}, {131072, -65536, 32768}, {-3.5, -1.25, -0.75} /* puts the vertex of the first cell that faces its neighbour (the middle of the contact zone of the two-cell tissues) exactly at the coordinate origin */};
+static const int NTR = 9;
+static const double TR[NTR][3] = {{0.25, 0, 0}, {1.125, -1.125, 0}, {8, -8, 8}, {1024, 1024, 1024}, {-5, -2.5, -1.5}, {-1024, 2048, 0.5}, {131072, -65536, 32768}, {-3.5, -1.25, -0.75} /* puts the vertex of the first cell that faces its neighbour (the middle of the contact zone of the two-cell tissues) exactly at the coordinate origin */, {-2.0, -1.25, -0.75} /* the tissue's reference point half a cell size from the coordinate origin: the origin lies inside the first cell, off its centre */};
 static const double ORIGIN[3] = {2.5, 1.25, 0.75};
 
 static std::vector<sw::CellSpec> make_tissue(int t, const double tr[3], double eps_node0) {
@@ -70,11 +70,11 @@ static Out check(int tissue, int tri, int N) {
 //   * the cut goes through the same place of the cell: the volume fraction of the first daughter right after the division agrees within DIV_FRACTION_TOL.
 static const int DIV_HORIZON = 75, DIV_SLACK = 8; static const double DIV_FRACTION_TOL = 0.1;
 struct DivOut { int divided_at = -1; double fraction = 0; bool threw = false; std::string what; double pre_dev = 0; std::vector<std::array<double, 3>> pre; };
-static DivOut run_division(const double tr[3], int horizon) {
+static DivOut run_division(const double tr[3], int horizon, bool early = false /* the cell is above its division volume from the start: it divides in iteration 0, before anything was refreshed or refined */) {
     using namespace sc; DivOut o; global_simulation_parameters p = make_sim_params(sw::scratch_root() + "/c14", 0.2); p.time_step_ = 2e-3; p.damping_coefficient_ = 2.0; p.sampling_period_ = 1e9; p.simulation_duration_ = 1e9; p.contact_cutoff_adhesion_ = 0.1; p.contact_cutoff_repulsion_ = 0.1;
     auto ty = make_cell_type(0, 3); ty->bulk_modulus_ = 20; ty->avg_growth_rate_ = 30; for (auto& f : ty->face_types_) { f.surface_tension_ = 0.5; f.adherence_strength_ = 5; f.repulsion_strength_ = 50; f.bending_modulus_ = 0.01; } ty->area_elasticity_modulus_ = 0.2;
     Mesh m = translated(scaled(transformed(icosphere(2), matmul(rot_x_51213(), rot_z_345()), {0, 0, 0}), 1.3, 1.0, 0.8), ORIGIN[0] + tr[0], ORIGIN[1] + tr[1], ORIGIN[2] + tr[2]);
-    try { { cell_ptr probe = make_cell(m, 0, ty, true); ty->avg_division_vol_ = 1.004 * probe->get_volume(); ty->std_division_vol_ = 0; probe->clear_data(); }
+    try { { cell_ptr probe = make_cell(m, 0, ty, true); ty->avg_division_vol_ = (early ? 0.9 : 1.004) * probe->get_volume(); ty->std_division_vol_ = 0; probe->clear_data(); }
         sw::World W({{m, ty}}, p);
         for (int i = 0; i < horizon; i++) { if (W.cells().size() == 1 && i % 5 == 0) { o.pre.clear(); for (const node& n : W.cells()[0]->node_lst_) if (n.is_used_) o.pre.push_back({n.pos_.dx() - tr[0], n.pos_.dy() - tr[1], n.pos_.dz() - tr[2]}); }
             W.s->run_iteration(); if (getenv("C14_DEBUG")) printf("it %d cells %zu V %.5f target %.5f divV %.5f\n", i, W.cells().size(), W.cells()[0]->get_volume(), W.cells()[0]->get_target_volume(), W.cells()[0]->get_division_volume());
@@ -82,10 +82,10 @@ static DivOut run_division(const double tr[3], int horizon) {
     catch (std::exception& e) { o.threw = true; o.what = e.what(); }
     return o;
 }
-static std::string check_division(int tri, std::string* note) {
-    const double zero[3] = {0, 0, 0}; char buf[400]; DivOut ref = run_division(zero, DIV_HORIZON);
+static std::string check_division(int tri, std::string* note, bool early = false) {
+    const double zero[3] = {0, 0, 0}; char buf[400]; DivOut ref = run_division(zero, DIV_HORIZON, early);
     if (ref.threw || ref.divided_at < 0 || ref.divided_at > DIV_HORIZON - 5 * DIV_SLACK - 5) { *note = "inconclusive: the reference cell does not divide early enough"; return ""; }
-    DivOut tra = run_division(TR[tri], DIV_HORIZON);
+    DivOut tra = run_division(TR[tri], DIV_HORIZON, early);
     snprintf(buf, sizeof buf, "reference divides in iteration %d (first daughter gets %.4f of the volume), translated in iteration %d (%.4f)", ref.divided_at, ref.fraction, tra.divided_at, tra.fraction); *note = buf;
     if (tra.threw) return "translated-run-failed-where-the-reference-run-succeeded: " + tra.what;
     if (tra.divided_at < 0 || tra.divided_at > ref.divided_at + 5 * DIV_SLACK) { snprintf(buf, sizeof buf, "translated-cell-does-not-divide: the reference cell divides in iteration %d, the translated one not within %d further attempts", ref.divided_at, DIV_SLACK); return buf; }
@@ -106,9 +106,9 @@ static void explore(Result& R) {
         if (!o.err.empty()) R.violation(clause_of(o.err) + "|tissue=" + std::to_string(t), std::string(TISSUES[t]) + ", translation (" + jnum(TR[tr][0]) + "," + jnum(TR[tr][1]) + "," + jnum(TR[tr][2]) + "), " + std::to_string(N) + " iterations: " + o.err, "tissue=" + std::to_string(t) + "\ntr=" + std::to_string(tr) + "\nN=" + std::to_string(N) + "\n");
         R.sample("{\"tissue\":\"" + std::string(TISSUES[t]) + "\",\"translation\":[" + jnum(TR[tr][0]) + "," + jnum(TR[tr][1]) + "," + jnum(TR[tr][2]) + "],\"iterations\":" + std::to_string(N) + ",\"max_deviation\":" + jnum(o.dev) + ",\"one_ulp_sensitivity\":" + jnum(o.sens) + "}", 8); }
 done:
-    { long div_cases = 0, div_judged = 0; for (int tr = 0; tr < NTR; tr++) { if (R.out_of_time(0.95)) { R.cap("deadline (division block)"); break; } progress("mode=division\ntr=" + std::to_string(tr) + "\n"); std::string note; std::string e = check_division(tr, &note); div_cases++; cases++; iters += 2L * DIV_HORIZON; if (note.rfind("inconclusive", 0) == 0) { inconcl++; continue; } div_judged++;
+    { long div_cases = 0, div_judged = 0; for (int tr = 0; tr < NTR; tr++) { if (R.out_of_time(0.95)) { R.cap("deadline (division block)"); break; } progress("mode=division\ntr=" + std::to_string(tr) + "\n"); for (int early = 0; early < 2; early++) { std::string note; std::string e = check_division(tr, &note, early != 0); div_cases++; cases++; iters += 2L * DIV_HORIZON; if (note.rfind("inconclusive", 0) == 0) { inconcl++; continue; } div_judged++;
         R.sample("{\"tissue\":\"one growing cell that divides\",\"translation\":[" + jnum(TR[tr][0]) + "," + jnum(TR[tr][1]) + "," + jnum(TR[tr][2]) + "],\"observed\":\"" + note + "\"}", 14);
-        if (!e.empty()) R.violation(clause_of(e) + "|division", "one growing, dividing cell, translation (" + jnum(TR[tr][0]) + "," + jnum(TR[tr][1]) + "," + jnum(TR[tr][2]) + "): " + e + " [" + note + "]", "mode=division\ntr=" + std::to_string(tr) + "\n"); }
+        if (!e.empty()) R.violation(clause_of(e) + "|division", "one growing, dividing cell, translation (" + jnum(TR[tr][0]) + "," + jnum(TR[tr][1]) + "," + jnum(TR[tr][2]) + "): " + e + " [" + note + "]", "mode=division\ntr=" + std::to_string(tr) + "\nearly=" + std::to_string(early) + "\n"); } }
       R["division_cases"] = div_cases; R["division_cases_judged"] = div_judged; if (!div_judged && R.violations.empty() && R.exhaustive) R.internal_error = "no division case could be judged (vacuous)"; }
     sw::cleanup_scratch();
     R["evaluations"] = cases; R["states"] = cases; R["transitions"] = iters; R["distinct_nontrivial"] = cases - inconcl; R["traces_validated_against_impl"] = cases - inconcl; R["inconclusive_cases"] = inconcl; R.reals["worst_position_deviation"] = worst;
@@ -117,6 +117,6 @@ done:
     R.assumptions = {"division block: trajectories after a division are not compared node by node (the interface triangulation re-rolls with the last bits of the coordinates, and an attempt fails cleanly for 10-30 % of them); judged: the translated cell divides within 8 further attempts and the first daughter receives the same fraction of the volume within 0.1", "translations are dyadic so that translated inputs are exact; tolerance = 1e-9 + 16 * (sensitivity/ulp) * ulp(|t|) * iterations", "tissue placed at (2.5,1.25,0.75) so that the origin is not special; one translation moves it across the origin, one by about one voxel"};
 }
 static int replay(const Replay& rp, Result& R) { if (rp.geti("diag", 0)) { const double zero[3] = {0, 0, 0}; for (int N = 1; N <= (int)rp.geti("N"); N++) { Final a = run((int)rp.geti("tissue"), zero, N, 0), b = run((int)rp.geti("tissue"), TR[rp.geti("tr")], N, 0); printf("N=%d cells %zu/%zu", N, a.ids.size(), b.ids.size()); for (size_t i = 0; i < a.tri.size() && i < b.tri.size(); i++) printf("  cell%zu tris %zu/%zu nodes %zu/%zu same_tris=%d", i, a.tri[i].size(), b.tri[i].size(), a.pos[i].size(), b.pos[i].size(), (int)(a.tri[i] == b.tri[i])); printf(" dev=%.3g\n", same_structure(a, b) ? max_dev(a, b) : -1.0); } return 0; }
-    if (rp.get("mode") == "division") { std::string note, e = check_division((int)rp.geti("tr"), &note), note2, e2 = check_division((int)rp.geti("tr"), &note2); sw::cleanup_scratch(); if (e != e2) { printf("replay diverged\n"); return 0; } printf("%s\n%s\n", note.c_str(), e.c_str()); if (!e.empty()) { R.violation(clause_of(e), e, ""); return 1; } return 0; }
+    if (rp.get("mode") == "division") { std::string note, e = check_division((int)rp.geti("tr"), &note, rp.geti("early", 0) != 0), note2, e2 = check_division((int)rp.geti("tr"), &note2, rp.geti("early", 0) != 0); sw::cleanup_scratch(); if (e != e2) { printf("replay diverged\n"); return 0; } printf("%s\n%s\n", note.c_str(), e.c_str()); if (!e.empty()) { R.violation(clause_of(e), e, ""); return 1; } return 0; }
     Out o = check((int)rp.geti("tissue"), (int)rp.geti("tr"), (int)rp.geti("N")); sw::cleanup_scratch(); printf("deviation %.3g sensitivity %.3g inconclusive %d\n%s\n", o.dev, o.sens, (int)o.inconclusive, o.err.c_str()); if (!o.err.empty()) { R.violation(clause_of(o.err), o.err, ""); return 1; } return 0; }
 int main(int argc, char** argv) { return run_main(argc, argv, "C14", explore, replay); }
